@@ -1,5 +1,6 @@
 import TrucModel.Proofs.Memory
 import TrucModel.Proofs.Refine
+import TrucModel.Proofs.Reachable
 /-
   C06 — Everything stored in a record is destroyed exactly once.
   Goal (full statement): ledger balance over every API operation sequence.  Proved so far
@@ -79,7 +80,7 @@ theorem C06_new_then_drop (dr : String → Bool) (cap : Nat) (s : Spec) (hwf : W
     (hl : vals.length = s.data.length) (hty : ∀ p ∈ s.data.zip vals, p.2.ty = p.1.ty) :
     ∃ b st st', call dr cap (ctorNew s) { args := [("from", fieldsOf s.data vals)] } = .ok st ∧ st.result = .record b ∧ st.drops = [] ∧
       call dr cap (dropFn s) { self_ := some b } = .ok st' ∧ st'.drops = vals.filter (fun v => dr v.ty) := by
-  obtain ⟨b, st, hcall, hres, hcap, hdrops, _, hfound, _⟩ := ctorNew_ok dr cap s hwf vals hl hty
+  obtain ⟨b, st, hcall, hres, hcap, hdrops, _, hfound, _, _⟩ := ctorNew_ok dr cap s hwf vals hl hty
   have hf : ∀ d ∈ s.data, ∃ e, b.find d = some e := fun d hd => by
     obtain ⟨i, hi, rfl⟩ := List.mem_iff_getElem.1 hd
     exact ⟨_, hfound (s.data[i], vals[i]'(by omega)) (by rw [List.mem_iff_getElem]; exact ⟨i, by simp [hl]; exact hi, by simp⟩)⟩
@@ -101,7 +102,7 @@ theorem C06_new_then_unpack (dr : String → Bool) (cap : Nat) (s : Spec) (hwf :
     ∃ b st st', call dr cap (ctorNew s) { args := [("from", fieldsOf s.data vals)] } = .ok st ∧ st.result = .record b ∧ st.drops = [] ∧
       call dr cap (unpackFn s) { self_ := some b, selfGlue := some s.data } = .ok st' ∧ st'.drops = [] ∧
       st'.result = .struct ((s.data.map (·.name)).zip vals) none := by
-  obtain ⟨b, st, hcall, hres, hcap, hdrops, _, hfound, _⟩ := ctorNew_ok dr cap s hwf vals hl hty
+  obtain ⟨b, st, hcall, hres, hcap, hdrops, _, hfound, _, _⟩ := ctorNew_ok dr cap s hwf vals hl hty
   have hf : ∀ d ∈ s.data, ∃ e, b.find d = some e := fun d hd => by
     obtain ⟨i, hi, rfl⟩ := List.mem_iff_getElem.1 hd
     exact ⟨_, hfound (s.data[i], vals[i]'(by omega)) (by rw [List.mem_iff_getElem]; exact ⟨i, by simp [hl]; exact hi, by simp⟩)⟩
@@ -116,6 +117,41 @@ theorem C06_new_then_unpack (dr : String → Bool) (cap : Nat) (s : Spec) (hwf :
     have hi : i < s.data.length := by simpa using h1
     rw [hfound (s.data[i], vals[i]'(by omega)) (by rw [List.mem_iff_getElem]; exact ⟨i, by simp [hl]; exact hi, by simp⟩)]
     rfl
+
+/-- **any life cycle.** A record reached by any sequence of constructor / conversions / writes, when
+    finally dropped, destroys exactly the droppable values its fields hold (one per droppable field,
+    none twice: `RecInv.atMost`), without machine error; when unpacked it destroys nothing and hands
+    every field value back. Together with `C05_convert` (a conversion destroys exactly the removed
+    droppable values, or returns them) every value moved in is destroyed or handed back exactly once. -/
+theorem C06_end_of_life (dr : String → Bool) (cap : Nat) (specs : List Spec) (hm : ModuleWF dr cap specs)
+    (k : Nat) (b : Buf) (h : Reach dr cap specs k b) :
+    ∃ s, specs[k]? = some s ∧
+      (∃ st, call dr cap (dropFn s) { self_ := some b } = .ok st ∧ st.drops = (s.data.map (valOf b)).filter (fun v => dr v.ty)) ∧
+      ("record" ∉ s.data.map (·.name) →
+        ∃ st, call dr cap (unpackFn s) { self_ := some b, selfGlue := some s.data } = .ok st ∧ st.drops = [] ∧
+          st.result = .struct ((s.data.map (·.name)).zip (s.data.map (valOf b))) none) := by
+  obtain ⟨s, hs, hc, hinv⟩ := reach_inv dr cap specs hm k b h
+  have hwf := hm.data s (List.mem_of_getElem? hs)
+  refine ⟨s, hs, ?_, ?_⟩
+  · obtain ⟨st, h1, h2, _⟩ := drop_inv_ok dr cap s b hc hwf hinv
+    exact ⟨st, h1, h2⟩
+  · intro hrec
+    obtain ⟨st, h1, h2, h3⟩ := unpack_inv_ok dr cap s b hc hwf hrec hinv
+    exact ⟨st, h1, h3, h2⟩
+
+/-- fields removed by a conversion that does not return them are destroyed by that conversion -/
+theorem C06_removed_dropped (dr : String → Bool) (cap : Nat) (sp0 sp : Spec) (uninit : Bool)
+    (hw : ConvWF cap sp0.data sp.data sp.minus sp.plus) (b0 : Buf) (hcap : b0.cap = cap) (hinv : RecInv dr b0 sp0.data)
+    (hrec : "record" ∉ sp.minus.map (·.name)) (hpod : ∀ d ∈ sp.plus, d.uninit = true → dr d.ty = false)
+    (hz : ∀ p ∈ sp.plus, p.size = 0 → dr p.ty = true)
+    (vals : List Val) (hl : vals.length = (plusWritten sp uninit).length)
+    (hty : ∀ p ∈ (plusWritten sp uninit).zip vals, p.2.ty = p.1.ty) :
+    ∃ st, call dr cap (convFn sp uninit false)
+        { from_ := some b0, fromGlue := some sp0.data, args := [("plus", fieldsOf (plusWritten sp uninit) vals)] } = .ok st ∧
+      st.drops = (minusVals sp b0).filter (fun v => dr v.ty) := by
+  obtain ⟨b2, st, hcall, _, hres, _⟩ := conv_ok dr cap sp0 sp uninit false hw b0 hcap hinv hrec hpod hz vals hl hty
+  simp only [Bool.false_eq_true, if_false] at hres
+  exact ⟨st, hcall, hres.2⟩
 
 /-- non-vacuity -/
 example :
